@@ -242,7 +242,7 @@ def _engine_run(cmd, timeout, race, engine, log):
         if race.done.is_set():
             return
         t0 = time.time()
-        for attempt in (1, 2):
+        for attempt in (1, 2, 3):
             try:
                 p = subprocess.Popen(cmd, stdout=subprocess.PIPE, stderr=subprocess.PIPE, preexec_fn=_limits)
             except OSError as e:
@@ -259,6 +259,13 @@ def _engine_run(cmd, timeout, race, engine, log):
                 return
             if p.returncode in (0, 10) or race.done.is_set() or p.returncode < 0:
                 break
+            if b'too many addressed objects' in out + err and '--object-bits' in cmd:
+                # the object-bits budget of the group (kept small on purpose) does not cover this version of the code: doubled twice at most
+                k = cmd.index('--object-bits') + 1
+                if int(cmd[k]) < 14:
+                    cmd = cmd[:k] + [str(min(14, int(cmd[k]) + 2))] + cmd[k + 1:]
+                    log.append((engine, 'too many addressed objects, retrying with --object-bits %s' % cmd[k], time.time() - t0))
+                    continue
             # a crash of the tool (rc 6 = abort seen under heavy load) is retried once
             log.append((engine, 'crashed rc=%s, retrying' % p.returncode, time.time() - t0))
             time.sleep(1.0)
